@@ -50,6 +50,24 @@ type Gen struct {
 
 const nNames = 5
 
+// extremeInt: the top of the int range (overflow of start + size, of index arithmetic) and its bottom
+func (g *Gen) extremeInt() int64 {
+	const maxInt = int64(^uint64(0) >> 1)
+	switch g.r.below(6) {
+	case 0:
+		return maxInt
+	case 1:
+		return maxInt - int64(g.r.below(8))
+	case 2:
+		return maxInt - int64(8+g.r.below(60))
+	case 3:
+		return -maxInt - 1
+	case 4:
+		return -maxInt + int64(g.r.below(8))
+	}
+	return int64(1) << uint(31+g.r.below(32))
+}
+
 func (g *Gen) name() int64 {
 	if g.r.chance(4) {
 		return 5
@@ -130,6 +148,9 @@ func init() {
 		}},
 		{"NodeRemoveInterface", 3, func(g *Gen, p *Pool) (Op, bool) {
 			n := g.r.pick(p.of(KNode))
+			if g.r.chance(6) {
+				return mk("NodeRemoveInterface", n, g.extremeInt())
+			}
 			return mk("NodeRemoveInterface", n, int64(g.r.below(len(p.node(n).Interfaces())+3)-1))
 		}},
 		{"IfAddSent", 12, func(g *Gen, p *Pool) (Op, bool) { return mk("IfAddSent", g.r.pick(liveIfaces(p)), g.ptr(p.of(KMsg))) }},
@@ -171,7 +192,12 @@ func init() {
 		}},
 		{"EnumRemoveAllValues", 2, func(g *Gen, p *Pool) (Op, bool) { return mk("EnumRemoveAllValues", g.r.pick(p.of(KEnum))) }},
 		{"EvalUpdateName", 4, func(g *Gen, p *Pool) (Op, bool) { return mk("EvalUpdateName", g.r.pick(p.of(KEval)), g.name()) }},
-		{"EvalUpdateIndex", 5, func(g *Gen, p *Pool) (Op, bool) { return mk("EvalUpdateIndex", g.r.pick(p.of(KEval)), int64(g.r.below(8)-1)) }},
+		{"EvalUpdateIndex", 5, func(g *Gen, p *Pool) (Op, bool) {
+			if g.r.chance(3) {
+				return mk("EvalUpdateIndex", g.r.pick(p.of(KEval)), g.extremeInt())
+			}
+			return mk("EvalUpdateIndex", g.r.pick(p.of(KEval)), int64(g.r.below(8)-1))
+		}},
 		{"NewEnumValue", 1, func(g *Gen, p *Pool) (Op, bool) {
 			if len(p.of(KEval)) >= 12 {
 				return none, false
